@@ -77,7 +77,7 @@ def showRet : Ret → String
   | .scope c => showCtx c | .exit => "exit" | .slow => "slow" | .start => "start"
 
 def showPc : PC → String
-  | .unborn => "unborn" | .embryo => "embryo" | .mut => "mut" | .poll0 => "poll0" | .pollSlow => "pollSlow"
+  | .unborn => "unborn" | .embryo => "embryo" | .ready => "ready" | .mut => "mut" | .poll0 => "poll0" | .pollSlow => "pollSlow"
   | .spB0 => "spB0" | .spB1 => "spB1" | .spB2 => "spB2" | .spWait => "spWait" | .spWoken => "spWoken"
   | .ps0 c => s!"ps0({showCtx c})" | .park0 r => s!"park0({showRet r})" | .parkS r => s!"parkS({showRet r})"
   | .parkB0 r => s!"parkB0({showRet r})" | .parkB1 r => s!"parkB1({showRet r})" | .parkB2 r => s!"parkB2({showRet r})"
